@@ -395,6 +395,7 @@ func Run(c *run.Ctx) {
 	if c.Knob("faults", "off") != "enum" {
 		return
 	}
+	pairs := 0
 	for i, op := range o.ops {
 		i, op := i, op
 		fs2 := fs.Clone("disk")
@@ -425,6 +426,29 @@ func Run(c *run.Ctx) {
 			}
 		} else {
 			c.Probe("fault-reported")
+		}
+		// fault sequences: a second error, wherever the first one did not end the scan at once
+		for j := i + 1; j < len(o2.ops) && pairs < 40; j++ {
+			j, op2 := j, o2.ops[j]
+			pairs++
+			fs3 := fs.Clone("disk")
+			fs3.Before = func(seq int, kind, p string) *simfs.Fault {
+				if seq == i || seq == j {
+					return &simfs.Fault{Partial: op2.N / 2}
+				}
+				return nil
+			}
+			o3 := execute(fs3, target)
+			c.Res.Steps += len(o3.ops)
+			c.Fault("second:" + op2.Kind)
+			if o3.panicMsg != "" {
+				c.Violate("no-crash", "C20/fault-panic/"+op.Kind+"+"+op2.Kind+"/"+o3.frame, "I/O errors at ops %d and %d: RunTests panicked: %s", i, j, o3.panicMsg)
+				return
+			}
+			if o3.err == nil && !expectOK {
+				c.Violate("fault-never-turns-fail-into-pass", "C20/fault-false-pass/"+op.Kind+"+"+op2.Kind, "I/O errors injected at ops %d (%s %s) and %d (%s %s): the run passed although it must fail (files %s)", i, op.Kind, op.Path, j, op2.Kind, op2.Path, describe(files))
+				return
+			}
 		}
 	}
 }
